@@ -192,6 +192,30 @@ int main() {
       ++it;
     }
   }
+  // (3a) equality is equality of the 7-tuples over the WHOLE exponent range, two slots at a time: all 65536 (x, y) at each pair of
+  // positions (i, j), the other exponents zero - 21 x 65536 sets. Equal-comparing sets must be the same tuple: the hashed
+  // container keeps exactly as many elements as there are distinct tuples (it uses == inside a bucket), and so does the ordered one
+  // (an equality that goes through a non-injective key - a polynomial of the exponents - merges sets here).
+  for (int i = 0; i < 7; i++)
+    for (int j = i + 1; j < 7; j++) {
+      std::unordered_set<Dimensions> us;
+      std::set<Dimensions> os;
+      us.reserve(70000);
+      for (int x = -128; x <= 127; x++)
+        for (int y = -128; y <= 127; y++) {
+          int t[7] = {0, 0, 0, 0, 0, 0, 0};
+          t[i] = x;
+          t[j] = y;
+          const Dimensions d = mk(t);
+          us.insert(d);
+          if (((x * 31 + y) & 15) == 0) os.insert(d);  // every 16th one also into the ordered set (cost)
+        }
+      vf::stat("two_slot_classes");
+      vf::stat("container_elements", 65536);
+      if (us.size() != 65536 || os.size() != 4096)
+        vf::viol("dims-equality-merges-distinct-sets|" + std::to_string(i) + "," + std::to_string(j),
+                 "{\"positions\":[" + std::to_string(i) + "," + std::to_string(j) + "],\"distinct_tuples\":65536,\"unordered_set_size\":" + std::to_string(us.size()) + ",\"set_size_of_4096\":" + std::to_string(os.size()) + "}");
+    }
   // (3b) the hash is a hash of the whole 7-tuple: it depends on every exponent (for each slot there are tuples that differ in
   // that slot only and hash differently) - a deliberately weak requirement that any reasonable hash of the tuple meets
   for (int slot = 0; slot < 7; slot++) {
